@@ -6,6 +6,7 @@ From SU Require Import F32.
 From SU.Model Require Import Midi.
 From SU.Spec Require Import MidiSpec.
 From SU.Proofs Require Import MidiProofs.
+From SU.Proofs Require Import MidiExtraProofs.
 Open Scope Z_scope.
 
 (** [falling_gate()] called after any history returns true iff there is a gate fall
@@ -37,7 +38,50 @@ Example C05_example :
   /\ mout 0 [OMsg (MNoteOn 0 60 100)] OPollRise = Some true.
 Proof. vm_compute. repeat split; reflexivity. Qed.
 
+(** for EVERY history (no capacity hypothesis), with the edges defined over the receiver's real gate(): a falling poll returns true iff the gate went from true to false since the previous falling poll and no listened note-on arrived after that *)
+Theorem C05_falling_any : forall ch h,
+  mout ch h OPollFall = Some (pending_fall_g ch h).
+Proof. exact C05_falling_any. Qed.
+
+(** for EVERY history: a rising poll returns true iff a listened note-on raised the gate from low (or arrived in retrigger mode) since the previous rising poll and the gate did not drop afterwards *)
+Theorem C05_rising_any : forall ch h,
+  mout ch h OPollRise = Some (pending_rise_g ch h).
+Proof. exact C05_rising_any. Qed.
+
+(** within capacity the real-gate edges are the specification's edges (so C05_falling above is a corollary) *)
+Theorem C05_pending_fall_g_spec : forall ch h,
+  within_capacity (Z.min ch 15) h -> pending_fall_g ch h = pending_fall (Z.min ch 15) h.
+Proof. exact pending_fall_g_spec. Qed.
+
+(** same for rising *)
+Theorem C05_pending_rise_g_spec : forall ch h,
+  within_capacity (Z.min ch 15) h -> pending_rise_g ch h = pending_rise (Z.min ch 15) h.
+Proof. exact pending_rise_g_spec. Qed.
+
+(** the real gate is high exactly when the held list is non-empty, for every history *)
+Theorem C05_gate_iff_held : forall ch h,
+  r_gate (mrun ch h) = negb (isnil (r_held (mrun ch h))).
+Proof. exact gate_iff_held. Qed.
+
+(** why the real gate is the right reference beyond capacity: after 33 note-ons and 32 note-offs the real gate is low and falling_gate() reports it, while the unbounded specification still counts one outstanding note *)
+Theorem C05_capacity_witness :
+  r_gate (mrun 0 capacity_history) = false /\
+  r_held (mrun 0 capacity_history) = [] /\
+  mout 0 capacity_history OPollFall = Some true /\
+  held_spec 0 capacity_history = [32] /\
+  gate_spec 0 capacity_history = true /\
+  pending_fall 0 capacity_history = false /\
+  pending_fall_g 0 capacity_history = true /\
+  ~ within_capacity 0 capacity_history.
+Proof. exact capacity_witness. Qed.
+
 Print Assumptions C05_falling.
 Print Assumptions C05_rising.
 Print Assumptions C05_rising_implies_high.
 Print Assumptions C05_falling_implies_low.
+Print Assumptions C05_falling_any.
+Print Assumptions C05_rising_any.
+Print Assumptions C05_pending_fall_g_spec.
+Print Assumptions C05_pending_rise_g_spec.
+Print Assumptions C05_gate_iff_held.
+Print Assumptions C05_capacity_witness.
